@@ -153,7 +153,7 @@ pub fn gen_value(t: &mut Tape, fam: Fam) -> GenValue {
         YesNo => single(t.pick(&["yes", "no"]).to_string()),
         YesNoForce => single(t.pick(&["yes", "no", "force"]).to_string()),
         UInt => single(t.pick(&["0", "3524", "12", "4294967295"]).to_string()),
-        Date => single(t.pick(&["2024-01-31", "2000-02-29", "1999-12-01"]).to_string()),
+        Date => single(t.pick(&["2024-01-31", "2000-02-29", "1999-12-01", "2024-12-30", "2021-01-01", "2020-12-31", "2000-01-01", "1999-12-31", "2016-01-03"]).to_string()),
         Url => {
             let u = t.pick(&["https://example.com/", "https://bugs.debian.org/123456", "http://x.org/a?b=c", "https://example.com"]).to_string();
             GenValue { lines: vec![u.clone()], expected: url::Url::parse(&u).unwrap().to_string(), unordered_lines: false }
